@@ -1783,3 +1783,146 @@ Proof.
 Qed.
 
 End Layers3.
+
+(* ------------------------------------------------------------------------------------------ *)
+(* Part F: Token::parse_request, Token::run, the client of the theorem, the theorem             *)
+(* ------------------------------------------------------------------------------------------ *)
+Lemma next_first role :
+  match role_input_streams role with
+  | [] => next_input_stream role None = None
+  | x :: _ => next_input_stream role None = Some x
+  end.
+Proof.
+  destruct (role_cases role) as [->|[->|[->|[H1 H2]]]]; try reflexivity. rewrite H1. apply H2.
+Qed.
+
+Lemma SREL_init B sp parsed raw out rq prem pad st :
+  SREL (mkA B sp parsed raw out rq (next_input_stream (r_role rq) None) prem pad st) (done_mode (r_id rq) (r_role rq)).
+Proof.
+  unfold SREL, in_role, done_mode. cbn [a_req a_stream]. pose proof (next_first (r_role rq)) as H.
+  destruct (role_input_streams (r_role rq)) as [|x t] eqn:E.
+  - right. split; [reflexivity|exact H].
+  - left. split; [reflexivity|]. rewrite H. left. reflexivity.
+Qed.
+
+Lemma rvm_open g s : is_final s = false -> rvm g s = MI -> rvm true s = MB.
+Proof.
+  destruct s as [|p q|vars p q|i p q|i p q|i vars p q|r p q|r|e]; cbn [rvm is_final]; intros Hf H;
+    try reflexivity; try discriminate H; try discriminate Hf. exfalso. apply (done_mode_not_MI _ _ H).
+Qed.
+
+Section Loop3.
+Variable norm : bytes -> bytes.
+Variable maxc : N.
+
+(* between requests: every read happens after the whole output of the parse call just made has been written, and
+   that call has consumed every complete record it held *)
+Lemma parse_request_ps3 : forall fuel p new w, parser_ok p -> bytes_ok new -> len new <= input_space p -> PS3 p w new ->
+  match parse_request norm maxc fuel p new w with
+  | Ok (inl s0) w' => forall wr lk ab, HS3 (mkR s0 wr lk ab) w'
+  | Ok (inr _) _ => True
+  | Halt o _ => o <> ODeadlock
+  end.
+Proof.
+  induction fuel as [|f IH]; intros p new w Hp Hn Hl (Hrem & Hnf & g & HQ); [cbn [parse_request]; discriminate|].
+  rewrite parse_request_iter.
+  destruct (parse_facts norm maxc p new Hp Hn Hl) as (p' & d & o & EP & Hp' & Hd & _). rewrite EP.
+  pose proof (await_write_all_spec (io_fuel w (len o)) true o w) as WS1.
+  destruct (await_write_all (io_fuel w (len o)) true o w) as [[k|] w1|o1 w1]; [exact I| |].
+  2:{ destruct o1; try contradiction; discriminate. }
+  destruct WS1 as (Hsame & Hlog & Hsuf & _). unfold wlog_ext in Hlog.
+  assert (Hrem1 : bytes_ok (remaining w1)) by (rewrite (same_but_io_remaining _ _ Hsame); exact Hrem).
+  assert (Hnf1 : no_fault (wscript w1)) by (apply (no_fault_suffix _ _ Hsuf Hnf)).
+  assert (Hsegs : segs w1 = segs w) by apply Hsame.
+  assert (STEP : is_fatal (st p') = false ->
+            Q3 (sk (st p')) (rvm g (st p')) (sprem (st p')) (spad (st p')) (held p') [] (wlog w1) [] (segs w1) /\
+            (d = false -> fst (WS (st p') (held p')) = 0) /\
+            (d = false -> VS g (st p') (held p') = true -> rvm g (st p') = MI)).
+  { intros Hnfat. destruct (parse_law norm maxc p new p' d o Hp Hn Hl EP Hnfat) as (Wo & L & S).
+    destruct (parse_vlaw norm maxc g p new p' d o Hp Hn Hl EP Hnfat) as (LV & SV).
+    split; [|split; [exact S|exact SV]]. rewrite Hlog, Hsegs.
+    pose proof (Q3_parse (sk (st p)) (rvm g (st p)) (sprem (st p)) (spad (st p)) (held p) [] (wlog w) new (segs w)
+                  (sk (st p')) (rvm g (st p')) (sprem (st p')) (spad (st p')) (held p') o Wo L LV HQ) as H1. cbn [app] in H1.
+    apply (Q3_flush _ _ _ _ _ o _ _ _ o []); [symmetry; apply app_nil_r|exact H1]. }
+  destruct d.
+  - destruct (into_stream_parser p') as [s0|e] eqn:EI; [|exact I].
+    pose proof EI as EI'. unfold into_stream_parser in EI'.
+    destruct (st p') as [| | | | | | |rq|e] eqn:Est; try discriminate EI'.
+    destruct (STEP eq_refl) as [Q1 _]. cbn [sk sprem spad rvm] in Q1.
+    destruct Hp' as (_ & _ & Hh & Hc & _).
+    destruct (into_stream_parser_init p' rq Est Hc) as (p0 & E0 & R0 & A0). rewrite EI in E0. injection E0 as <-.
+    intros wr lk ab. apply (HS3_mk s0 (done_mode (r_id rq) (r_role rq))).
+    + apply (into_stream_parser_pinv p' rq s0 Est Hc Hh EI).
+    + exact Hrem1.
+    + exact Hnf1.
+    + rewrite A0. apply SREL_init.
+    + unfold SQ3. rewrite A0. cbn [a_st a_prem a_pad a_raw a_out kst]. exact Q1.
+    + pose proof (Q3_world _ _ _ _ _ _ _ _ _ Q1) as H. rewrite app_nil_r in H. exact H.
+    + pose proof (f_equal a_out A0) as Eo. cbn [abs a_out] in Eo. rewrite Eo. apply wholeF_nil.
+  - assert (Hnfin : is_final (st p') = false) by (symmetry; exact Hd).
+    assert (Hnfat : is_fatal (st p') = false) by (destruct (st p'); try reflexivity; discriminate Hd).
+    destruct (STEP Hnfat) as (Q1 & S1 & SV). specialize (S1 eq_refl). specialize (SV eq_refl).
+    assert (GATE : forall E ge gm bb rest, flat E = [] -> segs w1 = E ++ (ge, gm, bb) :: rest -> bb <> [] ->
+              gate_met (counts (wlog w1)) ge gm).
+    { intros E ge gm bb rest HF HS Hbb. rewrite HS in Q1. apply (Q3_block _ _ _ _ _ _ E ge gm bb rest HF Hbb S1 SV Q1). }
+    pose proof (await_read_inv3 _ _ _ _ _ _ (io_fuel w1 0) true (input_space p') w1 Q1 SV GATE) as AR.
+    pose proof (await_read_rem (io_fuel w1 0) true (input_space p') w1) as RM.
+    destruct (await_read (io_fuel w1 0) true (input_space p') w1) as [[b|k] w2|o2 w2]; [|exact I|exact AR].
+    destruct b as [|x b]; [exact I|]. destruct RM as (R1 & R2 & R3 & R4 & _).
+    rewrite R3 in Hrem1. apply bytes_ok_app in Hrem1.
+    apply IH; [exact Hp'|apply Hrem1|exact R4|]. split; [apply Hrem1|]. split; [rewrite R2; exact Hnf1|].
+    destruct AR as (vm' & [->|[Hm ->]] & AR); [exists g; exact AR|]. exists true. rewrite (rvm_open g _ Hnfin Hm). exact AR.
+Qed.
+
+(* Token::run never ends in the wait-for cycle *)
+Lemma run_loop_nd3 scripts : scripts_ok true scripts ->
+  forall fuel p served w, parser_ok p -> world_ok w -> PS3 p w [] ->
+  fst (run_loop norm maxc fuel p scripts served w) <> ODeadlock.
+Proof.
+  intros Hscripts. induction fuel as [|f IH]; intros p served w Hp Wok HPS; [cbn [run_loop fst]; discriminate|].
+  cbn [run_loop]. destruct (stopped w); [cbn [fst]; discriminate|].
+  pose proof (parse_request_ok norm maxc (io_fuel w 0) p [] w Hp Wok ltac:(apply Forall_nil) ltac:(rewrite len_nil; lia)
+                ltac:(rewrite io_fuel_eq; lia)) as PR.
+  pose proof (parse_request_ps3 (io_fuel w 0) p [] w Hp ltac:(constructor) ltac:(rewrite len_nil; lia) HPS) as PN.
+  unfold preq_post in PR.
+  destruct (parse_request norm maxc (io_fuel w 0) p [] w) as [[s0|k] w1|o w1]; [|cbn [fst]; discriminate|cbn [fst]; exact PN].
+  destruct PR as (G0 & S1 & B0 & St0 & _).
+  set (role := r_role (sreq s0)) in *.
+  set (r0 := mkR s0 (len (role_input_streams role) <=? 1) false false).
+  assert (GR0 : rgood r0).
+  { split; [exact G0|]. unfold wr_inv. subst r0. cbn [rsp rwriteable]. fold role. rewrite St0. apply wr_inv_init. }
+  set (w2 := fold_left _ _ _).
+  assert (S2 : wstep w1 w2).
+  { subst w2. eapply wstep_trans; [|apply wstep_fold_ev]. eapply wstep_trans; apply wstep_ev. }
+  assert (HS2 : HS3 r0 w2).
+  { subst w2. match goal with |- HS3 _ (fold_left _ ?env ?w) => destruct (fold_ev_fields env w) as (F1 & F2 & F3 & F4) end.
+    apply (HS3_world r0 w1); [rewrite F1; reflexivity|rewrite F2; reflexivity|rewrite F3; reflexivity|rewrite F4; reflexivity|].
+    apply PN. }
+  set (script := nth served scripts (last scripts [])).
+  assert (Hscript : script_ok true role (next_input_stream role None) script).
+  { subst script. apply (Forall_nth_default (fun s => forall role, script_ok true role (next_input_stream role None) s));
+      [exact Hscripts|]. apply Forall_last; [exact Hscripts|]. intros role'. constructor. }
+  pose proof (run_handler_ok norm maxc true role _ script Hscript (length script + 2) r0 w2 ltac:(lia) GR0
+                (ws_ok _ _ S2 (ws_ok _ _ S1 Wok)) eq_refl St0) as RH.
+  pose proof (run_handler_hs3 maxc true role _ script Hscript (length script + 2) r0 w2 HS2) as RN.
+  unfold hpost in RH.
+  destruct (run_handler maxc (length script + 2) script r0 w2) as [[st r1] w3|o w3]; [|cbn [fst]; exact RN].
+  destruct RH as ((G1 & S3 & _) & Hst).
+  assert (Wok3 : world_ok w3) by (apply (ws_ok _ _ S3), (ws_ok _ _ S2), (ws_ok _ _ S1), Wok).
+  assert (CLOSE : forall d c, In d EXITSTATUS_VALUES ->
+    fst (match do_close maxc r1 d c w3 with
+         | Halt o w4 => (o, w4)
+         | Ok (inl rp) w4 => run_loop norm maxc f rp scripts (S served) w4
+         | Ok (inr _) w4 => (ORet, w4)
+         end) <> ODeadlock).
+  { intros d c Hd. pose proof (do_close_ok norm maxc r1 d c w3 G1 Wok3 Hd) as DC.
+    pose proof (do_close_hs3 maxc r1 d c w3 RN) as DN. unfold close_post in DC.
+    destruct (do_close maxc r1 d c w3) as [[rp|k] w4|o w4].
+    - destruct DC as (C1 & C2 & C3 & C4). apply IH; [exact C1|apply (ws_ok _ _ C3 Wok3)|exact DN].
+    - cbn [fst]. discriminate.
+    - cbn [fst]. exact DN. }
+  destruct st as [[d c]|k].
+  - apply CLOSE. exact Hst.
+  - destruct ((k =? EK_Aborted) && raborted r1); [apply CLOSE; apply exit_complete_in|cbn [fst]; discriminate].
+Qed.
+End Loop3.
